@@ -505,8 +505,59 @@ def bounded(ctx):
             fails.add(res[0], res[1], case)
     ctx.done(exhaustive=complete, note=fails.note())
 
+    ctx.check("repeated_text", "the SAME long text in 2-3 columns of one row (with and without a short first column) x 4 styles x terminal "
+                               "widths: rendering succeeds, no line is wider than the terminal, bordered styles give lines of one width")
+    fails = _Failures(ctx)
+    for case in repeated_text_cases(quick):
+        res = geometry_only(case)
+        ctx.case(_key(case), nontrivial=True, sample=_sample(case))
+        if res is not None:
+            fails.add(res[0], res[1], case)
+    ctx.done(exhaustive=True, note=fails.note())
+
+
+def geometry_only(case):
+    """rectangle and width bound of a table whose columns may hold the SAME text (no attribution of characters to columns)
+    -> None | (signature, what)"""
+    res = render(case)
+    if res["exc"] is not None:
+        return ("repeated-text|render-raises|%s" % type(res["exc"]).__name__, "render raised %r" % (res["exc"],))
+    lines = [ANSI_STRIP.sub("", l) for l in res["out"].split("\n") if l != ""]
+    widths = sorted(set(len(l.rstrip(" ")) if case["style"] in ("borderless", "compact") else len(l) for l in lines))
+    limit = case["width"]
+    if any(len(l.rstrip(" ")) > limit for l in lines):
+        return ("repeated-text|wider-than-terminal", "a line of %d columns on a terminal of %d (widths of the lines: %r)" % (
+            max(len(l.rstrip(" ")) for l in lines), limit, widths))
+    if case["style"] not in ("borderless", "compact") and len(widths) > 1:
+        return ("repeated-text|lines-of-different-width", "lines of widths %r" % (widths,))
+    if res["modified"]:
+        return ("repeated-text|modified", res["modified"])
+    return None
+
+
+ANSI_STRIP = re.compile(r"\x1b\[[0-9;]*m")
+
+
+def repeated_text_cases(quick):
+    words = ["ab" * k for k in (1, 2, 3, 5, 8)]
+    long_text = " ".join(words[i % len(words)] for i in range(40))
+    for ncols in (2, 3):
+        for width in ((40, 60, 80) if quick else range(30, 121, 5)):
+            for style in STYLES:
+                for short_first in (False, True):
+                    row = [long_text] * ncols
+                    if short_first:
+                        row[0] = "ab"
+                    # a second row makes one of the equal columns need a little more room than the other
+                    rows = [row, ["abab"] + [""] * (ncols - 1)]
+                    yield {"style": style, "header": None, "rows": rows, "width": width, "indent": 0,
+                           "align": [None] * ncols, "ansi": False, "repeated_text": True}
+
 
 def replay_bounded(check_id, failure):
     case = failure.get("witness")
+    if case.get("repeated_text"):
+        res = geometry_only(case)
+        return {"fails": res is not None, "detail": "" if res is None else "%s: %s" % res}
     res = evaluate(case)
     return {"fails": res is not None, "detail": "" if res is None else "%s: %s" % res}
